@@ -15,6 +15,8 @@ use crate::view::{fixed_hash, inspect, pairs_of, View};
 use alloy_rlp::Decodable;
 use enr::{Enr, EnrKey};
 
+pub const F12_TAG: &str = "combined-ed25519-signer+valid-secp256k1-entry";
+
 pub trait DynOwner {
     fn backend(&self) -> Backend;
     fn key_specs(&self) -> Vec<KeySpec>;
@@ -126,7 +128,7 @@ impl<K: BaseKey> Owner<K> {
                 .front()
                 .copied()
                 .unwrap_or(crate::keys::VAR_DEFAULT_SIG_LEN)
-                .clamp(1, 255),
+                .clamp(crate::keys::VAR_MIN_SIG_LEN, 255),
             None => 64,
         };
         SignerInfo {
@@ -142,6 +144,28 @@ impl<K: BaseKey> Owner<K> {
             origin,
             dec: self.backend.dec(),
             in_scope,
+        }
+    }
+
+    /// Known finding F12: an Ed25519-signed CombinedKey record that also holds a valid secp256k1
+    /// entry cannot verify (CombinedKey stands on the secp256k1 entry). Violations that arise in a
+    /// step where this holds are tagged, so the finding is identified by its trigger and nothing else.
+    fn f12_trigger(&self, signer_kind: PkKind, v: &View) -> bool {
+        matches!(self.backend, Backend::CombSecp | Backend::CombEd)
+            && signer_kind == PkKind::Ed
+            && v.pairs.iter().any(|(k, r)| {
+                k == b"secp256k1"
+                    && matches!(rlp::parse_item(r), Ok(it) if !it.list && it.total_len == r.len()
+                        && crate::refcrypto::secp_pk_valid33(it.payload, crate::refcrypto::Lib::Libsecp))
+            })
+    }
+
+    fn tag_known(cx: &mut Cx, from: usize, tag: &str) {
+        cx.stat(&format!("known-trigger:{tag}"));
+        for v in &mut cx.viols[from..] {
+            if matches!(v.prop.as_str(), "C01" | "C04" | "C05" | "C10" | "C12") {
+                v.check = format!("{}/known-trigger:{tag}", v.check);
+            }
         }
     }
 
@@ -305,9 +329,13 @@ impl<K: BaseKey> DynOwner for Owner<K> {
                 let v = inspect(&rec, cx.deep);
                 Self::flush_panics(cx, "accessors after build");
                 cx.trans(format!("{b}/build/{}/ok/{}", calls.len().min(6), abstract_state(&v)));
+                let vstart = cx.viols.len();
                 let mut out = Vec::new();
                 check_view(&v, &self.rcx("built", true), &mut out);
                 cx.extend(out);
+                if self.f12_trigger(info.pk_kind, &v) {
+                    Self::tag_known(cx, vstart, F12_TAG);
+                }
                 if pred.judged {
                     if pred.causes.contains(&ErrKind::ExceedsMaxSize) && fixed {
                         cx.push(viol("C09", "C09/accepted-over-limit/build", format!("predicted {} bytes", pred.size)));
@@ -437,7 +465,7 @@ impl<K: BaseKey> DynOwner for Owner<K> {
                             cx.push(viol("C08", format!("C08/error-kind/{opn}/got={}/causes={}", kind.name(), causes_str(&pred.causes)),
                                 format!("{op:?}")));
                         }
-                        if pred.causes.len() == 1 && pred.causes.contains(&ErrKind::SequenceNumberTooHigh) {
+                        if pred.causes.len() == 1 && pred.causes.contains(&ErrKind::SequenceNumberTooHigh) && (fixed || *kind != ErrKind::ExceedsMaxSize) {
                             cx.push(viol("C07", format!("C07/wrong-error-at-max/{opn}"), format!("got {}", kind.name())));
                         }
                     }
@@ -450,6 +478,8 @@ impl<K: BaseKey> DynOwner for Owner<K> {
                 }
             }
             Outcome::Ok(ret) => {
+                let vstart = cx.viols.len();
+                let f12 = self.f12_trigger(info.pk_kind, &after);
                 let mut out = Vec::new();
                 check_view(&after, &self.rcx("updated", same_scheme), &mut out);
                 let broke = out.iter().any(|v| v.prop == "C05");
@@ -508,6 +538,9 @@ impl<K: BaseKey> DynOwner for Owner<K> {
                     }
                 } else {
                     cx.stat("excluded:cross-scheme-update");
+                }
+                if f12 {
+                    Self::tag_known(cx, vstart, F12_TAG);
                 }
                 self.view = Some(after);
                 self.resync(info.pk_kind, info.pk.clone());
